@@ -61,6 +61,34 @@ def behaviour_lockstep(rng, sc, sc2, n_ops=20):
     return None
 
 
+def edit_before_export(rng, sc, stats):
+    """The statechart was used and edited through the API before it is exported (rotate_transition, rename_state keep it
+    valid for export): what is exported must be the statechart as it is NOW."""
+    from sismic.exceptions import StatechartError
+    try:
+        [sc.transitions_from(n) for n in sc.states]      # (queries made before the edits)
+        [sc.depth_for(n) for n in sc.states]
+    except Exception:  # noqa
+        pass
+    owners = [n for n in sc.states if hasattr(sc.state_for(n), 'transitions') or sc.state_for(n).__class__.__name__ in
+              ('BasicState', 'CompoundState', 'OrthogonalState')]
+    for _ in range(rng.randint(1, 3)):
+        try:
+            if sc._transitions and rng.random() < 0.6:
+                t = rng.choice(sc._transitions)
+                if rng.random() < 0.6:
+                    sc.rotate_transition(t, new_source=rng.choice(owners))
+                else:
+                    sc.rotate_transition(t, new_target=rng.choice(list(sc.states)))
+                stats['rotations_before_export'] = stats.get('rotations_before_export', 0) + 1
+            else:
+                old = rng.choice(list(sc.states))
+                sc.rename_state(old, old + rng.choice(['_e', 'x']))
+                stats['renames_before_export'] = stats.get('renames_before_export', 0) + 1
+        except StatechartError:
+            pass
+
+
 def disturb(rng):
     """A failing export / import in the same process, as happens in a long-running tool: round trips that follow
     must not be affected by it."""
@@ -137,6 +165,8 @@ def main(tier, seed):
         if i % 3 == 2:
             sc = genchart.valid_chart(rng, genchart.Profile())
             stats['executable'] += 1
+            if rng.random() < 0.5:
+                edit_before_export(rng, sc, stats)
             one_chart(sc, True, str(i))
         else:
             sc = iofam.weird_chart(rng)
@@ -231,3 +261,9 @@ def main(tier, seed):
                     'strings hit by the two recorded ruamel.yaml defects (U+0085; leading "?" in a flow mapping) are excluded '
                     'from generation and replayed as known findings'], n_viol)
     return v.finish()
+
+
+def replay(path):
+    import json
+    import icheck
+    return icheck.replay(path)
